@@ -250,6 +250,10 @@ def judge(fi: FI, form: str, k, value, before_model):
             j.update(verdict="out", cause="wrong-array-type")
         elif len(value) != fi.n:
             j.update(verdict="out", cause="wrong-length")
+        elif fi.kind == "farr" and any(isinstance(x, float) and math.isinf(x) for x in value[:]):
+            # the source array holds infinity (it got there without validation: received bytes, a disable block):
+            # infinity is outside the domain of a float field whichever way it is handed over
+            j.update(verdict="out", cause="infinity-in-source-array")
         else:
             if fi.kind == "bytes":
                 exp = list(bytes(value[:]))
@@ -1313,6 +1317,11 @@ def _array_source(draw, ccls: type, fi: FI):
     init = draw(st.none() | msgs.seq_in(sfi, sfi.n))
     if init is not None and ("b" in init or "ba" in init):
         init = enc(list(dec(init)))
+    if sfi.kind == "farr" and draw(st.integers(0, 3)) == 0:
+        # the source holds infinity at one position (written through the raw ctypes field, as received bytes would be)
+        vals = list(dec(init)) if init is not None else [0.0] * sfi.n
+        vals[draw(st.integers(0, sfi.n - 1))] = draw(st.sampled_from([float("inf"), float("-inf")]))
+        init = enc(vals)
     return {"A": msgs.ref_of(src_cls), "f": sfi.name, "init": init, "sl": None}
 
 
